@@ -6,7 +6,7 @@ from props import datasets as dsm
 
 RULE = ("metamorphic runs of ShapleyImportance('neighbor') on random datasets (2-7 units, default and map/fork groupings, 2-4 classes, 1-5 validation points, "
         "pairwise distinct distances): (a) permute training rows with labels, provenance and distance rows; (b) permute and (c) duplicate the validation set; "
-        "(d) strictly increasing transforms of all distances (affine, exp, cube, sqrt, rescaling by 1e-11 and 1e11); (e) consistent injective renaming of the class labels incl. order-changing "
+        "(d) strictly increasing transforms of all distances (affine, exp, cube, sqrt, rescaling by 1e-11 and 1e11, and three whose range is negative: log, shift below zero, -1/(d+1)); (e) consistent injective renaming of the class labels incl. order-changing "
         "ones and int->str->float (K=1, accuracy); (f) BATCH_DISTANCE_MATRIX_SIZE set to 1, 2, 7, 64; (g) interchangeable units (two units with identical rows); "
         "every base run is also compared with the Lean model Ds.Neighbor.score so that 'both runs wrong the same way' is caught. Non-trivial = the base score vector "
         "is not constant; distinct = distinct (dataset, transformation).")
@@ -61,10 +61,12 @@ def run(ctx):
                 got = dsm.neighbor_scores(I, ds, util, dist=np.tile(ds["dist"], (1, rep)), y_test=ds["y_test"] * rep)
                 case["rep"] = rep
             elif kind == "monotone":
-                f = rng.choice(["affine", "exp", "cube", "sqrt", "tiny", "huge"])
+                f = rng.choice(["affine", "exp", "cube", "sqrt", "tiny", "huge", "log", "shift-below-zero", "neg-reciprocal"])
                 D = ds["dist"]
+                # (the last three are strictly increasing too, but their range reaches below zero: a 'distance' may be any real score)
                 D2 = {"affine": 3.5 * D + 11, "exp": np.exp(D / 8.0), "cube": D ** 3, "sqrt": np.sqrt(D),
-                      "tiny": D * 1e-11, "huge": D * 1e11}[f]      # every feature rescaled by a very small / very large constant
+                      "tiny": D * 1e-11, "huge": D * 1e11, "log": np.log(D / float(np.max(D)) + 1e-9), "shift-below-zero": D - float(np.max(D)) - 1.0,
+                      "neg-reciprocal": -1.0 / (D + 1.0)}[f]      # every feature rescaled by a very small / very large constant
                 got = dsm.neighbor_scores(I, ds, util, dist=D2)
                 case["transform"] = f
             elif kind == "rename":
